@@ -178,10 +178,10 @@ func (e *EncryptedFormatter) batchFormat(tagNamePrefix, key string, value []byte
 	}
 
 	if len(docID) >= edvIDSize {
-		return base58.Encode(docID[0:edvIDSize]), formattedValue, tags, nil
+		return base58.Encode(docID[0:edvIDSize]), formattedValue, edvRes.DocTags, nil
 	}
 
-	return string(docID), formattedValue, tags, nil
+	return string(docID), formattedValue, edvRes.DocTags, nil
 }
 
 func (e *EncryptedFormatter) getStructuredDocFromEncryptedDoc(
